@@ -146,6 +146,11 @@ pub fn alphabet(name: &str) -> Vec<Op> {
             v.push(Op::RemoveRange { lo: B::Unb, hi: B::Unb });
             v.extend([Op::Checkpoint, Op::Reopen]);
         }
+        // three keys whose contents alternate in key order (a=X, b=Y, c=X): sharers that are not neighbours in the snapshot
+        "three" => {
+            v.extend([put(0, C_X), put(1, C_Y), put(2, C_X), put(1, C_X), Op::Remove { k: 0 }, Op::Remove { k: 2 }]);
+            v.extend([Op::Checkpoint, Op::Reopen]);
+        }
         // 14 symbols
         "base" => {
             v.extend([put(0, C_X), put(0, C_Y), put(1, C_X), put(1, C_Y), put(0, C_E)]);
